@@ -165,6 +165,7 @@ class Gauleg(Entry):
     """esutil.integrate.gauleg(x1, x2, npts)"""
     name = "gauleg"
     shard = 10
+    shard_quick = 30
     mode = "light"       # light | moments | large
     use_mp = False
 
@@ -189,7 +190,11 @@ class Gauleg(Entry):
         elif self.mode == "moments":
             if round == 0:
                 nmax = 30 if q else 64
-                for n in range(nmax, 12, -1):
+                ns = list(range(nmax, 12, -1))
+                if q:   # interleave so that the shards of 3 are balanced (large, middle, small n)
+                    k = (len(ns) + 2) // 3
+                    ns = [ns[i + j * k] for i in range(k) for j in range(3) if i + j * k < len(ns)]
+                for n in ns:
                     cs.append({"a": hx(-1.0), "b": hx(1.0), "n": n, "mom": 2 * n, "family": "moments 13..%d" % nmax})
         else:
             if round == 0 and not q:
@@ -229,6 +234,7 @@ class Gauleg(Entry):
 class GaulegMoments(Gauleg):
     name = "gauleg_moments"
     shard = 1
+    shard_quick = 3
     mode = "moments"
 
 
@@ -279,6 +285,7 @@ class Poly(Entry):
     """exactness of the rule gauleg(a,b,n) on random polynomials of degree <= 2n-1, n <= 30"""
     name = "poly"
     shard = 6
+    shard_quick = 16
 
     def cases(self, ctx, round=0):
         r = ctx.rng
@@ -403,6 +410,7 @@ class Func(Entry):
     """QGauss(npts).integrate([x1,x2], func), integrate(..., npts=), integrate_func, qgauss"""
     name = "integrate_func"
     shard = 10
+    shard_quick = 24
 
     def cases(self, ctx, round=0):
         r = ctx.rng
@@ -457,6 +465,7 @@ class Data(Entry):
     """QGauss(npts).integrate(xvals, yvals) on tabulated data (linear interpolation), qgauss"""
     name = "integrate_data"
     shard = 8
+    shard_quick = 20
 
     def cases(self, ctx, round=0):
         r = ctx.rng
@@ -528,6 +537,7 @@ class Func2(Entry):
     """QGauss2(nx, ny).integrate_func(xrng, yrng, func)"""
     name = "qgauss2"
     shard = 8
+    shard_quick = 20
 
     def cases(self, ctx, round=0):
         r = ctx.rng
@@ -591,6 +601,7 @@ class History(Entry):
     """sequences of integrate calls with changing npts on ONE QGauss object"""
     name = "history"
     shard = 25
+    shard_quick = 70
 
     def cases(self, ctx, round=0):
         r = ctx.rng
@@ -681,9 +692,12 @@ TRUSTED = [
 
 
 def differential_sharded(ctx, preamble, entries, replay_case=None):
-    """runner.differential with a per-entry shard size (moment certificates are heavy terms)"""
+    """runner.differential with a per-entry shard size (moment certificates are heavy terms).
+    The real esutil is run entry by entry (python, sequential: deterministic use of ctx.rng); the
+    Coq case files of the different entries are then evaluated concurrently (wall time)."""
+    from concurrent.futures import ThreadPoolExecutor
+    prepared = []
     for ent in entries:
-        t0 = time.time()
         if replay_case is not None:
             if replay_case.get("entry") != ent.name:
                 continue
@@ -692,7 +706,25 @@ def differential_sharded(ctx, preamble, entries, replay_case=None):
             cases = corpus_cases(ctx.pid, ent.name) + list(ent.cases(ctx, 0))
         for c in cases:
             c.setdefault("entry", ent.name)
-        res = run_entry(ctx, preamble, ent, cases, "d_" + ent.name)
+        t0 = time.time()
+        outs = [ent.impl(c) for c in cases]
+        terms = [ent.term(c, o) for c, o in zip(cases, outs)]
+        ctx.count("impl_s:" + ent.name, round(time.time() - t0, 1))
+        prepared.append((ent, cases, outs, terms))
+
+    def evaluate(job):
+        ent, cases, outs, terms = job
+        t0 = time.time()
+        r = eval_terms(ctx, preamble, ent, cases, outs, terms, "d_" + ent.name)
+        return r, round(time.time() - t0, 1)
+
+    with ThreadPoolExecutor(4) as ex:
+        evaluated = list(ex.map(evaluate, prepared))
+
+    for (ent, cases, outs, terms), ((res, err), wall) in zip(prepared, evaluated):
+        if err is not None:
+            ctx.violation("case file of entry %s does not evaluate in Coq" % ent.name,
+                          {"kind": "case-file", "entry": ent.name, "error": err[-3000:]}, found_input=False)
         failing = [(c, o, v) for c, o, v in res if v >= 2]
         disagree = [(c, o, v) for c, o, v in res if v == 1]
         for c, o, v in res:
@@ -710,15 +742,21 @@ def differential_sharded(ctx, preamble, entries, replay_case=None):
                 failing = [(c, o, v) for c, o, v in res2 if v >= 2]
                 if failing:
                     break
+        # failing inputs: the smallest of every class (known-finding classes are told apart by classify())
+        byclass = {}
+        for c, o, v in sorted(failing, key=lambda t: (not str(t[0].get("family", "")).startswith("corpus"),
+                                                      len(json.dumps(t[0], default=str)))):
+            byclass.setdefault(ent.classify(c, o, v), []).append((c, o, v))
         reported = 0
-        for c, o, v in sorted(failing, key=lambda t: len(json.dumps(t[0], default=str)))[:3]:
-            reported += 1
-            shown = None
-            if ent.show(c) is not None and reported <= 2:
-                shown = core.coq_show(ctx.work, preamble, ent.show(c))
-            ctx.violation("%s: %s" % (ent.name, core.VERDICT_TXT[v]),
-                          {"kind": "failing-input", "entry": ent.name, "case": c, "impl_output": _short(o),
-                           "verdict": v, "model_output": shown, "class": ent.classify(c, o, v)}, found_input=True)
+        for cls, lst in sorted(byclass.items(), key=lambda kv: str(kv[0])):
+            for c, o, v in lst[:3]:
+                reported += 1
+                shown = None
+                if ent.show(c) is not None and reported <= 2:
+                    shown = core.coq_show(ctx.work, preamble, ent.show(c))
+                ctx.violation("%s: %s" % (ent.name, core.VERDICT_TXT[v]),
+                              {"kind": "failing-input", "entry": ent.name, "case": c, "impl_output": _short(o),
+                               "verdict": v, "model_output": shown, "class": cls}, found_input=True)
         if disagree and not failing:
             c, o, v = min(disagree, key=lambda t: len(json.dumps(t[0], default=str)))
             shown = core.coq_show(ctx.work, preamble, ent.show(c)) if ent.show(c) is not None else None
@@ -728,7 +766,7 @@ def differential_sharded(ctx, preamble, entries, replay_case=None):
                            "model_output": shown, "class": ent.classify(c, o, v),
                            "no_longer_checks": "correspondence %s.%s (bit-exact float model = implementation)" % (ctx.pid, ent.name)},
                           found_input=False)
-        ctx.count("wall_s:" + ent.name, round(time.time() - t0, 1))
+        ctx.count("wall_s:" + ent.name, wall)
 
 
 def _short(o):
@@ -736,20 +774,25 @@ def _short(o):
     return o if len(s) < 4000 else s[:4000] + "...(truncated)"
 
 
+def eval_terms(ctx, preamble, entry, cases, outs, terms, tag):
+    """-> ([(case, out, verdict)], error text or None)"""
+    if not terms:
+        return [], None
+    try:
+        shard = getattr(entry, "shard_quick", entry.shard) if ctx.quick() else entry.shard
+        vals = core.coq_eval(os.path.join(ctx.work, tag), preamble, terms, tag=tag, shard=shard, timeout=1500)
+    except core.CoqEvalError as e:
+        return [], str(e)
+    return [(c, o, int(v.replace("%Z", "").strip("() "))) for c, o, v in zip(cases, outs, vals)], None
+
+
 def run_entry(ctx, preamble, entry, cases, tag):
     outs = [entry.impl(c) for c in cases]
     terms = [entry.term(c, o) for c, o in zip(cases, outs)]
-    if not terms:
-        return []
-    try:
-        vals = core.coq_eval(os.path.join(ctx.work, tag), preamble, terms, tag=tag, shard=entry.shard, timeout=1500)
-    except core.CoqEvalError as e:
+    res, err = eval_terms(ctx, preamble, entry, cases, outs, terms, tag)
+    if err is not None:
         ctx.violation("case file of entry %s does not evaluate in Coq" % entry.name,
-                      {"kind": "case-file", "entry": entry.name, "error": str(e)[-3000:]}, found_input=False)
-        return []
-    res = []
-    for c, o, v in zip(cases, outs, vals):
-        res.append((c, o, int(v.replace("%Z", "").strip("() "))))
+                      {"kind": "case-file", "entry": entry.name, "error": err[-3000:]}, found_input=False)
     return res
 
 
